@@ -701,8 +701,8 @@ func (m *Memory) writeDb(rLocked bool) {
 	l := len(times)
 	m.SavePending.Add(-int32(l))
 
-	// fork
-	go func() {
+	// fork, unless the caller waits for the records (Sync)
+	write := func() {
 		if rLocked {
 			defer m.syncMx.RUnlock()
 		}
@@ -767,7 +767,12 @@ func (m *Memory) writeDb(rLocked bool) {
 		if err != nil {
 			m.onErr(err)
 		}
-	}()
+	}
+	if rLocked {
+		go write()
+	} else {
+		write()
+	}
 }
 
 func (m *Memory) checkGc() {
